@@ -21,6 +21,7 @@ pub mod sepcomp;
 pub mod staleness;
 pub mod text;
 pub mod typepos;
+pub mod vecs;
 
 use crate::drive::Family;
 
@@ -42,6 +43,7 @@ pub fn all() -> Vec<Box<dyn Family>> {
         Box::new(evalorder::EvalOrder),
         Box::new(schedules::Schedules),
         Box::new(numbers::Numbers),
+        Box::new(vecs::Vecs),
         Box::new(closures::Closures),
         Box::new(generics::Generics),
         Box::new(methods::Methods),
